@@ -77,6 +77,26 @@ int32_t psPemTryDecode(psPool_t *pool,
 
 # ifdef USE_PEM_DECODE
 
+/* Strstr() for a (pointer, length) buffer: PEM input is not necessarily
+   NUL-terminated. */
+static char *pemFind(const char *from, const char *bufEnd, const char *needle)
+{
+    size_t needleLen = Strlen(needle);
+
+    if (from == NULL)
+    {
+        return NULL;
+    }
+    for (; from < bufEnd && (size_t) (bufEnd - from) >= needleLen; from++)
+    {
+        if (Memcmp(from, needle, needleLen) == 0)
+        {
+            return (char *) from;
+        }
+    }
+    return NULL;
+}
+
 psBool_t psPemCheckOk(const unsigned char *pemBuf,
         psSizeL_t pemBufLen,
         psPemType_t pemType,
@@ -85,12 +105,19 @@ psBool_t psPemCheckOk(const unsigned char *pemBuf,
         psSizeL_t *pemlen)
 {
     char *start, *end;
+    const char *bufEnd;
+
+    if (pemBuf == NULL)
+    {
+        return PS_FALSE;
+    }
+    bufEnd = (const char *) pemBuf + pemBufLen;
 
     /* Check header and encryption parameters. */
-    if (((start = Strstr((char *) pemBuf, "-----BEGIN")) != NULL) &&
-            ((start = Strstr((char *) pemBuf, "PRIVATE KEY-----")) != NULL) &&
-            ((end = Strstr(start, "-----END")) != NULL) &&
-            (Strstr(end, "PRIVATE KEY-----") != NULL))
+    if (((start = pemFind((char *) pemBuf, bufEnd, "-----BEGIN")) != NULL) &&
+            ((start = pemFind((char *) pemBuf, bufEnd, "PRIVATE KEY-----")) != NULL) &&
+            ((end = pemFind(start, bufEnd, "-----END")) != NULL) &&
+            (pemFind(end, bufEnd, "PRIVATE KEY-----") != NULL))
     {
         if (pemType != PEM_TYPE_KEY &&
                 pemType != PEM_TYPE_PRIVATE_KEY &&
@@ -99,15 +126,15 @@ psBool_t psPemCheckOk(const unsigned char *pemBuf,
             return PS_FALSE;
         }
         start += Strlen("PRIVATE KEY-----");
-        while (*start == '\x0d' || *start == '\x0a')
+        while (start < end && (*start == '\x0d' || *start == '\x0a'))
         {
             start++;
         }
     }
-    else if (((start = Strstr((char *) pemBuf, "-----BEGIN")) != NULL) &&
-            ((start = Strstr((char *) pemBuf, "PUBLIC KEY-----")) != NULL) &&
-            ((end = Strstr(start, "-----END")) != NULL) &&
-            (Strstr(end, "PUBLIC KEY-----") != NULL))
+    else if (((start = pemFind((char *) pemBuf, bufEnd, "-----BEGIN")) != NULL) &&
+            ((start = pemFind((char *) pemBuf, bufEnd, "PUBLIC KEY-----")) != NULL) &&
+            ((end = pemFind(start, bufEnd, "-----END")) != NULL) &&
+            (pemFind(end, bufEnd, "PUBLIC KEY-----") != NULL))
     {
         if (pemType != PEM_TYPE_PUBLIC_KEY &&
                 pemType != PEM_TYPE_KEY &&
@@ -116,15 +143,15 @@ psBool_t psPemCheckOk(const unsigned char *pemBuf,
             return PS_FALSE;
         }
         start += Strlen("PUBLIC KEY-----");
-        while (*start == '\x0d' || *start == '\x0a')
+        while (start < end && (*start == '\x0d' || *start == '\x0a'))
         {
             start++;
         }
     }
-    else if (((start = Strstr((char *) pemBuf, "-----BEGIN")) != NULL) &&
-            ((start = Strstr((char *) pemBuf, "CERTIFICATE-----")) != NULL) &&
-            ((end = Strstr(start, "-----END")) != NULL) &&
-            (Strstr(end, "CERTIFICATE-----") != NULL))
+    else if (((start = pemFind((char *) pemBuf, bufEnd, "-----BEGIN")) != NULL) &&
+            ((start = pemFind((char *) pemBuf, bufEnd, "CERTIFICATE-----")) != NULL) &&
+            ((end = pemFind(start, bufEnd, "-----END")) != NULL) &&
+            (pemFind(end, bufEnd, "CERTIFICATE-----") != NULL))
     {
         if (pemType != PEM_TYPE_CERTIFICATE &&
                 pemType != PEM_TYPE_ANY)
@@ -133,7 +160,7 @@ psBool_t psPemCheckOk(const unsigned char *pemBuf,
         }
 
         start += Strlen("CERTIFICATE-----");
-        while (*start == '\x0d' || *start == '\x0a')
+        while (start < end && (*start == '\x0d' || *start == '\x0a'))
         {
             start++;
         }
@@ -176,7 +203,7 @@ int32_t psPemDecode(psPool_t *pool,
     char *start, *end;
     int32 rc;
     psSizeL_t PEMlen = 0;
-    const char *keyBuf;
+    const char *keyBuf, *bufEnd;
     psSize_t outlenPsSize;
 
     start = end = NULL;
@@ -193,8 +220,9 @@ int32_t psPemDecode(psPool_t *pool,
     }
 
     keyBuf = (const char *)keyBufIn;
-    if (Strstr((char *) keyBuf, "Proc-Type:") &&
-        Strstr((char *) keyBuf, "4,ENCRYPTED"))
+    bufEnd = keyBuf + keyBufLen;
+    if (pemFind(keyBuf, bufEnd, "Proc-Type:") &&
+        pemFind(keyBuf, bufEnd, "4,ENCRYPTED"))
     {
 #  if defined(USE_PKCS5) && defined(USE_PBKDF1)
         if (password == NULL)
@@ -202,19 +230,22 @@ int32_t psPemDecode(psPool_t *pool,
             psTraceCrypto("No password given for encrypted private key file\n");
             return PS_ARG_FAIL;
         }
-        if ((start = Strstr((char *) keyBuf, des3encryptHeader)) != NULL)
+        /* The DEK-Info header and its hex IV must lie before the END line */
+        if ((start = pemFind(keyBuf, end, des3encryptHeader)) != NULL &&
+            (size_t) (end - start) >=
+            Strlen(des3encryptHeader) + 2 * DES3_IVLEN)
         {
             start += Strlen(des3encryptHeader);
             encrypted = 1;
-            /* we assume here that header points to at least 16 bytes of data */
             tmp = psHexToBinary((unsigned char *) start, cipherIV, DES3_IVLEN);
         }
-        else if ((start = Strstr((char *) keyBuf, aes128encryptHeader))
-                 != NULL)
+        else if ((start = pemFind(keyBuf, end, aes128encryptHeader))
+                 != NULL &&
+                 (size_t) (end - start) >=
+                 Strlen(aes128encryptHeader) + 2 * 16)
         {
             start += Strlen(aes128encryptHeader);
             encrypted = 2;
-            /* we assume here that header points to at least 32 bytes of data */
             tmp = psHexToBinary((unsigned char *) start, cipherIV, 16);
         }
         else
@@ -302,6 +333,7 @@ psRes_t psPemCertBufToList(psPool_t *pool,
 {
     psList_t *front, *prev, *current;
     unsigned char *start, *end, *endTmp;
+    const char *bufEnd;
     const unsigned char *chFileBuf;
     unsigned char l;
     int n = 0;
@@ -323,13 +355,14 @@ psRes_t psPemCertBufToList(psPool_t *pool,
     l = Strlen("CERTIFICATE-----");
     Memset(current, 0x0, sizeof(psList_t));
     chFileBuf = buf;
+    bufEnd = (const char *) buf + len;
     while (len > 0)
     {
         if (
-            ((start = (unsigned char *) Strstr((char *) chFileBuf, "-----BEGIN")) != NULL) &&
-            ((start = (unsigned char *) Strstr((char *) chFileBuf, "CERTIFICATE-----")) != NULL) &&
-            ((end = (unsigned char *) Strstr((char *) start, "-----END")) != NULL) &&
-            ((endTmp = (unsigned char *) Strstr((char *) end, "CERTIFICATE-----")) != NULL)
+            ((start = (unsigned char *) pemFind((char *) chFileBuf, bufEnd, "-----BEGIN")) != NULL) &&
+            ((start = (unsigned char *) pemFind((char *) chFileBuf, bufEnd, "CERTIFICATE-----")) != NULL) &&
+            ((end = (unsigned char *) pemFind((char *) start, bufEnd, "-----END")) != NULL) &&
+            ((endTmp = (unsigned char *) pemFind((char *) end, bufEnd, "CERTIFICATE-----")) != NULL)
             )
         {
             n++;
@@ -348,8 +381,9 @@ psRes_t psPemCertBufToList(psPool_t *pool,
             }
             current->len = (uint16_t) (end - start);
             end = endTmp + l;
-            while (*end == '\x0d' || *end == '\x0a' || *end == '\x09'
-                   || *end == ' ')
+            while ((const char *) end < bufEnd &&
+                   (*end == '\x0d' || *end == '\x0a' || *end == '\x09'
+                    || *end == ' '))
             {
                 end++;
             }
